@@ -13,7 +13,9 @@ MODES = ["raise", "drop", "uneven", "ignore"]
 
 def generate(rng, tier, index):
     W = rng.choice([1, 2, 2, 3, 3, 4])
-    N = rng.choice([0, 1, 2, 3, W, W + 1, 2 * W, 2 * W + 1, rng.randrange(0, 41), rng.randrange(0, 41)])
+    N = rng.choice([0, 1, 2, 3, W, W + 1, 2 * W, 2 * W + 1, rng.randrange(0, 41), rng.randrange(0, 41), rng.choice([100, 257, 1000, 1023])])
+    if rng.random() < 0.01:
+        N = rng.choice([32767, 32768, 32769, 40000, 65535, 65536, 65537, 70001])  # around the limits of 16-bit index types
     sc = {
         "N": N,
         "W": W,
@@ -39,7 +41,7 @@ def generate(rng, tier, index):
         elif k < 0.62:
             ops.append(["restart", r])
         elif k < 0.74:
-            ops.append(["jump", r, rng.randrange(0, 8)])
+            ops.append(["jump", r, rng.choice([rng.randrange(0, 8), rng.randrange(0, 8), 1000, 2**31 - 2])])
         elif k < 0.86:
             ops.append(["peek", r, rng.randrange(0, 8)])
         else:
